@@ -115,11 +115,6 @@ func (r *RibEntry) pruneIfEmpty() {
 }
 
 func (r *RibEntry) updateNexthopsEnc() {
-	// Nodes without a name only fill the path to longer prefixes and own no FIB entry
-	if r.Name != nil {
-		FibStrategyTable.ClearNextHopsEnc(r.Name)
-	}
-
 	// All routes including parents if needed
 	routes := append([]*Route{}, r.routes...)
 
@@ -149,9 +144,15 @@ func (r *RibEntry) updateNexthopsEnc() {
 		}
 	}
 
-	// Add "flattened" set of nexthops
-	for nexthop, cost := range minCostRoutes {
-		FibStrategyTable.InsertNextHopEnc(r.Name, nexthop, cost)
+	// Install the "flattened" set of nexthops in one step, so that a forwarding thread never
+	// finds the entry empty or half filled while it is being recomputed.
+	// Nodes without a name only fill the path to longer prefixes and own no FIB entry.
+	if r.Name != nil {
+		nexthops := make([]FibNextHopEntry, 0, len(minCostRoutes))
+		for nexthop, cost := range minCostRoutes {
+			nexthops = append(nexthops, FibNextHopEntry{Nexthop: nexthop, Cost: cost})
+		}
+		FibStrategyTable.ReplaceNextHopsEnc(r.Name, nexthops)
 	}
 
 	// Trigger update for all children for inheritance
